@@ -12,7 +12,7 @@ package errors
 //@   mode math
 //@   fresh
 //@   ensures result != nil && result.(*singleOrdaError) && result.(*singleOrdaError).Code == its
-//@   modifies singleOrdaError.Code
+//@   modifies nothing
 
 // NewRPCError turns a refusal into the gRPC error returned to the caller: it must BE an error
 // for every OrdaError (a nil error with a nil message is neither an answer nor an error).
